@@ -2,10 +2,22 @@ use crate::define::Result;
 use crate::error::Error;
 use crate::value::Value;
 use once_cell::sync::OnceCell;
-use rust_decimal::prelude::FromPrimitive;
 use rust_decimal::Decimal;
 use std::collections::HashMap;
 use std::sync::{Arc, Mutex};
+
+fn checked_decimal_op(op: &str, a: Decimal, b: Decimal) -> Result<Decimal> {
+    let ans = match op {
+        "+" | "+=" => a.checked_add(b),
+        "-" | "-=" => a.checked_sub(b),
+        "*" | "*=" => a.checked_mul(b),
+        "/" | "/=" | "%" | "%=" if b.is_zero() => return Err(Error::DivideByZero),
+        "/" | "/=" => a.checked_div(b),
+        "%" | "%=" => a.checked_rem(b),
+        _ => Some(a),
+    };
+    ans.ok_or(Error::NumberOverflow)
+}
 
 pub type InfixOpFunc = dyn Fn(Value, Value) -> Result<Value> + Send + Sync + 'static;
 
@@ -64,16 +76,8 @@ impl InfixOpManager {
                 SETTER,
                 RIGHT,
                 Arc::new(move |left, right| {
-                    let (mut a, b) = (left.decimal()?, right.decimal()?);
-                    match op {
-                        "+=" => a += b,
-                        "-=" => a -= b,
-                        "*=" => a *= b,
-                        "/=" => a /= b,
-                        "%=" => a %= b,
-                        _ => (),
-                    }
-                    Ok(Value::Number(a))
+                    let (a, b) = (left.decimal()?, right.decimal()?);
+                    Ok(Value::Number(checked_decimal_op(op, a, b)?))
                 }),
             );
         }
@@ -184,16 +188,8 @@ impl InfixOpManager {
                 CALC,
                 LEFT,
                 Arc::new(move |left, right| {
-                    let (mut a, b) = (left.decimal()?, right.decimal()?);
-                    match op {
-                        "+" => a += b,
-                        "-" => a -= b,
-                        "*" => a *= b,
-                        "/" => a /= b,
-                        "%" => a %= b,
-                        _ => (),
-                    }
-                    Ok(Value::from(a))
+                    let (a, b) = (left.decimal()?, right.decimal()?);
+                    Ok(Value::from(checked_decimal_op(op, a, b)?))
                 }),
             );
         }
@@ -410,7 +406,7 @@ impl PostfixOpManager {
             "++",
             Arc::new(|param| {
                 let a = match param {
-                    Value::Number(a) => a + Decimal::from_i32(1).unwrap(),
+                    Value::Number(a) => a.checked_add(Decimal::ONE).ok_or(Error::NumberOverflow)?,
                     _ => return Err(Error::ShouldBeNumber()),
                 };
                 Ok(Value::Number(a))
@@ -421,7 +417,7 @@ impl PostfixOpManager {
             "--",
             Arc::new(|param| {
                 let a = match param {
-                    Value::Number(a) => a - Decimal::from_i32(1).unwrap(),
+                    Value::Number(a) => a.checked_sub(Decimal::ONE).ok_or(Error::NumberOverflow)?,
                     _ => return Err(Error::ShouldBeNumber()),
                 };
                 Ok(Value::Number(a))
